@@ -1,6 +1,8 @@
 import PdfModel.Lemmas.Indirect
 import PdfModel.Lemmas.Sequence
 import PdfModel.Lemmas.Render
+import PdfModel.Lemmas.ParserCursor
+import PdfModel.Lemmas.RenderTail
 
 /-!
   C03 — every spec-conformant spelling of an object parses to the value it denotes.
@@ -240,7 +242,7 @@ theorem parse_render_sequence_partial (env : Env R) (hd : env.decrypt = none) (f
         buf.toList = pre ++ (PdfSpec.renderSeq fmt xs tail tape).1 → seqNeed items ≤ fuel →
         Ahead buf (pre.length + (seqText items).length) →
         parseSeq env buf fuel xs.length pre.length = .ok (seqExpected pre.length items) := by
-  obtain ⟨items, rest, e, hok, hmap⟩ := PdfSpec.renderSeq_spec fmt env.parseReal xs tail hr
+  obtain ⟨items, rest, e, hok, hmap, _⟩ := PdfSpec.renderSeq_spec fmt env.parseReal xs tail hr
     (fun x hx => ⟨wf_of x (hw x hx).1 (hw x hx).2.1, (hw x hx).2.2⟩) tape
   refine ⟨items, rest, e, hmap, ?_⟩
   intro buf hsz pre fuel hbuf hfuel hah
@@ -251,6 +253,83 @@ theorem parse_render_sequence_partial (env : Env R) (hd : env.decrypt = none) (f
   have hl : xs.length = items.length := by rw [← hmap]; simp
   have := parse_sequence_partial env hd items hsz [] rest pre.length fuel hok Gap.nil hs (by simpa using hah) hfuel
   rw [hl]; simpa using this
+
+/-- **What may follow an object**: the decidable criterion `safeTail` (`Spec/Tail`: after white-space and comments
+    the tail is empty, or starts a lexeme that is not `R` / `stream` and, if it is an integer, is not followed by `R`)
+    guarantees the side condition `Ahead` of the theorems above, whatever gap precedes the tail; and every tail the
+    harness appends (`Spec/Render.tails`, compared with the harness' own list on every run) satisfies it. -/
+theorem safe_tail_never_merges {buf : Buf} (tail g : List UInt8) (q : Nat) (hs : PdfSpec.safeTail tail = true) (hg : Gap g)
+    (h : Suffix buf q (g ++ tail)) : Ahead buf q :=
+  ahead_of_safeTail tail g q hs hg h
+
+theorem printer_tails_safe : ∀ t ∈ PdfSpec.tails, PdfSpec.safeTail t = true := tails_safe
+
+/-- **Headline without side condition**: value + safe tail.  Nothing is assumed beyond conformance of the rendering
+    (and the known-finding exclusion `namesUtf8`): the rendering placed behind any prefix, up to the end of the
+    buffer, parses to the value and the cursor rests right after its text. -/
+theorem parse_render (env : Env R) (hd : env.decrypt = none) (fmt : R → List UInt8) (v : Prim R) (tail : List UInt8)
+    (tape : List Nat) (hr : PdfSpec.Renderable fmt env.parseReal v) (hk : KeysDistinct v) (hu : namesUtf8 v = true)
+    (hdepth : vdepth v ≤ maxDepth) (ht : PdfSpec.safeTail tail = true) :
+    ∃ txt g, (PdfSpec.renderWithTail fmt v tail tape).1 = txt ++ g ++ tail ∧ Gap g ∧
+      ∀ {buf : Buf}, buf.size ≤ 2147483647 → ∀ (pre : List UInt8) (fuel : Nat) (ctx : Option (Nat × Nat)),
+        buf.toList = pre ++ (PdfSpec.renderWithTail fmt v tail tape).1 → need v ≤ fuel →
+        parseCtx env buf fuel pre.length ctx Flags.any maxDepth = .ok (v, pre.length + txt.length) := by
+  obtain ⟨txt, g, e, hg, hp⟩ := parse_render_partial env hd fmt v tail tape hr hk hu hdepth
+  refine ⟨txt, g, e, hg, ?_⟩
+  intro buf hsz pre fuel ctx hbuf hfuel
+  apply hp hsz pre fuel ctx hbuf hfuel
+  have hs : Suffix buf (pre.length + txt.length) (g ++ tail) := by
+    rw [e] at hbuf
+    have := Suffix.drop (a := txt) (s := g ++ tail) (by simpa using suffix_of_toList hbuf)
+    simpa using this
+  exact ahead_of_safeTail tail g _ ht hg hs
+
+/-- **The sequence clause at full strength**: a sequence of objects as the printer writes it, followed by any safe
+    tail (in particular each of `Spec/Render.tails`), is parsed back by as many consecutive `parse_with_lexer`
+    calls as there are objects to exactly these values, each call consuming exactly its own object's text.  No
+    side condition is left beyond conformance (and `namesUtf8`). -/
+theorem parse_render_sequence (env : Env R) (hd : env.decrypt = none) (fmt : R → List UInt8) (xs : List (Prim R))
+    (tail : List UInt8) (tape : List Nat) (hr : PdfSpec.RenderableL fmt env.parseReal xs)
+    (hw : ∀ x ∈ xs, KeysDistinct x ∧ namesUtf8 x = true ∧ vdepth x ≤ maxDepth) (ht : PdfSpec.safeTail tail = true) :
+    ∃ items rest, (PdfSpec.renderSeq fmt xs tail tape).1 = seqText items ++ rest ∧ items.map (·.1) = xs ∧
+      ∀ {buf : Buf}, buf.size ≤ 2147483647 → ∀ (pre : List UInt8) (fuel : Nat),
+        buf.toList = pre ++ (PdfSpec.renderSeq fmt xs tail tape).1 → seqNeed items ≤ fuel →
+        parseSeq env buf fuel xs.length pre.length = .ok (seqExpected pre.length items) := by
+  obtain ⟨items, rest, e, hok, hmap, g, hg, erest⟩ := PdfSpec.renderSeq_spec fmt env.parseReal xs tail hr
+    (fun x hx => ⟨wf_of x (hw x hx).1 (hw x hx).2.1, (hw x hx).2.2⟩) tape
+  refine ⟨items, rest, e, hmap, ?_⟩
+  intro buf hsz pre fuel hbuf hfuel
+  have hs : Suffix buf pre.length ([] ++ seqText items ++ rest) := by
+    rw [e] at hbuf
+    have := suffix_of_toList hbuf
+    simpa using this
+  have hs2 : Suffix buf (pre.length + (seqText items).length) (g ++ tail) := by
+    have := Suffix.drop (a := seqText items) (s := rest) (by simpa using hs)
+    rw [erest] at this; exact this
+  have hah : Ahead buf (pre.length + (seqText items).length) := ahead_of_safeTail tail g _ ht hg hs2
+  have hl : xs.length = items.length := by rw [← hmap]; simp
+  have := parse_sequence_partial env hd items hsz [] rest pre.length fuel hok Gap.nil hs (by simpa using hah) hfuel
+  rw [hl]; simpa using this
+
+/-- **The cursor is restored after a failed parse** (`Lexer.pos`, anchor of the property): for every buffer, every
+    start position inside it, every context, flag set, depth budget and fuel, if `parse_with_lexer_ctx` returns
+    `Err` then the lexer stands where the call started.  `parseCtxC` (`Model/ParserCursor`) is the parser with the
+    cursor tracked on every path — also the failing ones, where the inner functions leave it wherever the error
+    struck; `cursor_model_refines` ties it to the model all other theorems are about. -/
+theorem parse_err_restores_pos (env : Env R) (buf : Buf) (fuel pos : Nat) (ctx : Option (Nat × Nat)) (flags depth : Nat)
+    (h : pos ≤ buf.size) (herr : (parseCtxC env buf fuel pos ctx flags depth).1 = .err) :
+    (parseCtxC env buf fuel pos ctx flags depth).2 = pos :=
+  parseCtxC_err env buf fuel pos ctx flags depth h herr
+
+/-- the cursor-tracking parser returns exactly what the parser model returns, for all inputs; and after `Ok` its
+    cursor is the returned position (so "the cursor rests right after the text" in the theorems above is a
+    statement about `Lexer.pos`) -/
+theorem cursor_model_refines (env : Env R) (buf : Buf) (fuel pos : Nat) (ctx : Option (Nat × Nat)) (flags depth : Nat)
+    (h : pos ≤ buf.size) :
+    (parseCtxC env buf fuel pos ctx flags depth).1 = parseCtx env buf fuel pos ctx flags depth ∧
+    ∀ v p, parseCtx env buf fuel pos ctx flags depth = .ok (v, p) →
+      (parseCtxC env buf fuel pos ctx flags depth).2 = p ∧ p ≤ buf.size :=
+  ⟨parseCtxC_fst env buf fuel pos ctx flags depth h, fun v p hok => parseCtxC_ok env buf fuel pos ctx flags depth h v p hok⟩
 
 /-- The full-strength statement: as `parse_spelling_partial` but for *all* names the syntax can spell
     (`/#ff` is a legal name), i.e. without `namesUtf8`. -/
@@ -267,6 +346,13 @@ def unitEnv : Env Unit :=
 def isErr {α : Type} : Out α → Bool
   | .err => true
   | _ => false
+
+/-- non-vacuity of `parse_err_restores_pos`: `[1 2 (a` fails after the lexer has advanced to the end of the buffer, and
+    the cursor is back at the start (position 2, behind a prefix) -/
+example : (match parseCtxC unitEnv (#[120, 120, 91, 49, 32, 50, 32, 40, 97] : Buf) 40 2 none Flags.any maxDepth with
+    | (.err, 2) => true
+    | _ => false) = true := by
+  decide +kernel
 
 /-- **Counter-example (known finding, DESIGN D7)**: `/#ff` spells the name whose only byte is 0xFF; the
     reader rejects it because `Name` is a `SmallString` (UTF-8). -/
